@@ -3,6 +3,7 @@
 -/
 import DDV.Gen.AddrSem
 import DDV.Gen.Lemmas.Claimed
+import DDV.Gen.Lemmas.Refs
 
 namespace DDV.Props.C12
 open DDV.Gen
@@ -174,5 +175,24 @@ theorem accepted_means_no_two_instances_collide (n : Names) (l : Lir) (root : LB
   · exact absurd hcoll (List.pairwise_iff_getElem.1 hp i j hi hj hlt)
   · exact heq
   · exact absurd hcoll' (List.pairwise_iff_getElem.1 hp j i hj hi hgt)
+
+/-- **Refs and the overlap flag**: a ref allows address overlap iff its target or its override does
+    (for register and for command refs alike). -/
+theorem ref_allows_overlap (n : Names) (cfg : GlobalConfig) (all : List Object) (rf : RefObject) (fuel : Nat) :
+    (∀ (ov : RegisterOverride) (r : Register) (t : Integer),
+      rf.override = .register ov → searchObject ov.name all = some (.register r) → cfg.registerAddressType = some t →
+      ∃ m, getMethod n cfg all "new" (fuel + 2) (.ref rf) = .ok (m, []) ∧
+        m.allowAddressOverlap = (r.allowAddressOverlap || ov.allowAddressOverlap)) ∧
+    (∀ (ov : CommandOverride) (c : Command) (t : Integer),
+      rf.override = .command ov → searchObject ov.name all = some (.command c) → cfg.commandAddressType = some t →
+      ∃ m, getMethod n cfg all "new" (fuel + 2) (.ref rf) = .ok (m, []) ∧
+        m.allowAddressOverlap = (c.allowAddressOverlap || ov.allowAddressOverlap)) := by
+  constructor
+  · intro ov r t hov ht hc
+    obtain ⟨m, h, _, _, _, _, _, _, _, h8, _⟩ := register_ref_method n cfg all rf ov r t fuel hov ht hc
+    exact ⟨m, h, h8⟩
+  · intro ov c t hov ht hc
+    obtain ⟨m, h, _, _, _, _, _, h6, _⟩ := command_ref_method n cfg all rf ov c t fuel hov ht hc
+    exact ⟨m, h, h6⟩
 
 end DDV.Props.C12
